@@ -192,6 +192,8 @@ def o_parse_options(I, fn, n, args, st):
     plain = [T("REPROC_REDIRECT_PIPE"), T("REPROC_REDIRECT_PARENT"), T("REPROC_REDIRECT_DISCARD")]
     nonzero = frozenset(a for a in I.TOP_INT if a != 0)
     outs = [(failed(st, fn, n), I.neg())]
+    st = st.copy()
+    st.mon["parsed"] = True
     for t in targets(I, args[0]):
         red = ("f", t, "redirect")
 
